@@ -11,7 +11,7 @@ TABLES = []
 MODELS = [("c11", "Extract/ExC11.v", "run_C11")]
 
 FIELDS = ["status", "vertical_scroll", "vertical_scroll_2", "horizontal_scroll", "margin_width", "body_width",
-          "content_cursor", "screen_cursor", "rowcol_to_yx", "rowcol_to_yx_extra_keys",
+          "content_cursor", "screen_cursor", "rowcol_to_yx", "rowcol_to_yx_extra_keys", "display_to_source_all_columns",
           "visible_line_to_row_col", "cells"]
 
 NARROW = "abcdefgh"
@@ -53,6 +53,8 @@ def docs_small():
     out.append("\n".join("l%d" % i for i in range(9)))
     out.append("\n".join(["abcdefghijkl"] * 4))
     out.append("\n".join("x" * (i % 4) for i in range(12)))
+    out.append("a\tbc\t")
+    out.append("\t\tx\nab\tc")
     return out
 
 
@@ -72,6 +74,8 @@ def cfgs_small():
         out.append(mkcfg(wrap, 3, (0, 1, 0, 2)))
         out.append(mkcfg(wrap, 0, (1, 1, 1, 1), allow=1))
         out.append(mkcfg(wrap, 2, (0, 0, 0, 0), pf=("", ">> ", 0)))
+        out.append(mkcfg(wrap, 0, (0, 0, 0, 0), before="界> "))
+        out.append(mkcfg(wrap, 0, (0, 0, 0, 0), tabstop=4))
         out.append(mkcfg(wrap, 0, (1, 1, 0, 0), before="$ "))
     return out
 
@@ -81,7 +85,7 @@ def gen_exhaustive(chk, dist):
     configurations, each as a one-state case on a reset window; quick tier takes
     a stratum."""
     rng = chk.rng
-    stratum = 0.65 if chk.tier == "thorough" else 0.016
+    stratum = 0.5 if chk.tier == "thorough" else 0.016
     docs = docs_small()
     for cfg in cfgs_small():
         extra = margin_extra(cfg)
@@ -104,7 +108,7 @@ def rand_text(rng, alpha, maxlines=6):
     return "\n".join(ls)
 
 
-def rand_cfg(rng, tabs=False):
+def rand_cfg(rng, tabs=False, wide_before=False):
     wrap = rng.randint(0, 1)
     margin = rng.choice([0, 0, 0, 0, 1, 2, 2, 3])
     offs = [rng.choice([0, 0, 1, 2, 3]) for _ in range(4)]
@@ -116,6 +120,8 @@ def rand_cfg(rng, tabs=False):
     elif r < 0.3:
         pf = (rng.choice([">", "> ", "", ""]), rng.choice([".", ". ", ">> ", ""]), rng.randint(0, 1))   # variable width
     before = rng.choice(["$ ", "in: ", ""]) if rng.random() < 0.2 else None
+    if wide_before and rng.random() < 0.5:
+        before = rng.choice(["提示> ", "界 ", "a界"])          # double-width characters in the text before the input
     tabstop = rng.choice([1, 2, 3, 4, 8]) if tabs else 0
     return mkcfg(wrap, margin, offs, pf, tabstop, before, allow=int(rng.random() < 0.15))
 
@@ -164,7 +170,7 @@ def gen_random(chk, dist):
     for dom, n in plan:
         for _ in range(n):
             alpha = rng.choice(ALPHABETS[dom])
-            cfg = rand_cfg(rng, tabs=(dom == "tabs"))
+            cfg = rand_cfg(rng, tabs=(dom == "tabs") or (dom == "wide" and rng.random() < 0.3), wide_before=(dom == "wide"))
             states = rand_states(rng, cfg, alpha, rng.randint(1, 8))
             cases.append(mkcase(cfg, states))
             dist["random_sequence_" + dom] += 1
@@ -369,7 +375,7 @@ def main(tier):
                             "Exhaustive stratum: %d documents x all cursors x widths 1..12 x heights 1..6 x %d configurations (%s); "
                             "non-trivial = some state scrolled (vertical, intra-line or horizontal); distinct by hash of the whole case. "
                             "Oracle evaluated on states inside the property's quantifier (body width >= widest character + prefix)." % (
-                                len(docs_small()), len(cfgs_small()), "65% sample" if chk.tier == "thorough" else "1.6% sample"))
+                                len(docs_small()), len(cfgs_small()), "50% sample" if chk.tier == "thorough" else "1.6% sample"))
     chk.assumptions += [
         "character widths (get_cwidth of the source character, Char.width and Char.char of the displayed form) are inputs of the model, measured on the implementation per case; the theorems quantify over arbitrary width functions",
         "processors other than BeforeInput and TabsProcessor (highlighting, password, auto-suggestion) and margins other than NumberedMargin's width are outside the model; the default highlight processors are present in the real control and tied only as far as they leave text unchanged",
